@@ -101,15 +101,19 @@ _NEXT_SLOT = [0]
 class ScriptedMutator(evo.Mutator):
   """Returns the next child of the script (a fresh DNA without metadata)."""
 
-  def mutate(self, dna):    # pylint: disable=arguments-differ
+  def mutate(self, dna, step):    # pylint: disable=arguments-differ
     del dna
     q, space = _SCRIPTS[self.slot]
+    _STEPS.setdefault(self.slot, []).append(step)     # the `step` the evolution handed to its reproduction
     return space.fresh(q.popleft())
+
+
+_STEPS: Dict[int, List[int]] = {}
 
 
 FAMILY = {
     'sweep': 'sweep', 'random': 'random',
-    'regevo': 'evo', 'hill': 'evo', 'hill2': 'evo', 'nsga2': 'evo', 'neat': 'evo',
+    'regevo': 'evo', 'hill': 'evo', 'hill2': 'evo', 'nsga2': 'evo', 'neat': 'evo', 'sched': 'evo',
     'dd_sweep': 'dedup(sweep)', 'dd_random': 'dedup(random)', 'dd_random2': 'dedup(random)',
     'dd_regevo': 'dedup(evo)', 'dd_hill_auto': 'dedup(evo)',
 }
@@ -139,6 +143,13 @@ def make(cfg: str, space: Space, seed: int, slot: int):
     return evo.nsga2(mutator=mut, population_size=2, seed=seed)
   if cfg == 'neat':
     return evo.neat(mutator=mut, population_size=2, seed=seed)
+  if cfg == 'sched':
+    # operations that read `step` (a scheduled population size and a scheduled number of children): the step
+    # a recovered instance hands to them must be the one the uninterrupted instance handed
+    return evo.Evolution(
+        evo.selectors.Top(1) >> (mut * (lambda step: 2 if step % 2 == 0 else 1)),
+        population_init=(pg.geno.Random(seed=seed), 2),
+        population_update=evo.selectors.Last(lambda step: 1 if step % 2 == 1 else 3))
   if cfg == 'dd_sweep':
     return pg.geno.Deduping(pg.geno.Sweeping(), hash_fn=lambda d: (space.idx(d) + 1) // 2,
                             max_proposal_attempts=MAXATT)
@@ -192,10 +203,12 @@ class Run:
 
   def close(self):
     _SCRIPTS.pop(self.slot, None)
+    _STEPS.pop(self.slot, None)
 
   def propose(self, kids: List[int]):
     self.q.clear()
     self.q.extend(list(kids) * (MAXATT if self.cfg.startswith('dd_') else 1))
+    self.steps = _STEPS[self.slot] = []
     try:
       return 'ok', self.alg.propose()
     except StopIteration:
@@ -380,6 +393,9 @@ def replay(beh: List[Tuple[list, dict]], space: Space, seed: int, mirror: bool =
             diverged = True
           elif want == 'ok' and _meta(ru[1]) != _meta(rc[1]):
             violate('proposal_metadata', before, dict(uninterrupted=_meta(ru[1]), recovered=_meta(rc[1])))
+            diverged = True
+          elif U.steps != C.steps:
+            violate('operation_step', before, dict(uninterrupted=list(U.steps), recovered=list(C.steps)))
             diverged = True
         else:
           if rc[0] != want:
